@@ -422,12 +422,17 @@ class WritableStream(io.RawIOBase):
             command |= (7 - bytes_sent) << 1
             request[0] = command
             request[1:bytes_sent + 1] = b[0:bytes_sent]
-            response = self.sdo_client.request_response(request)
-            res_command, = struct.unpack("B", response[0:1])
-            if res_command & 0xE0 != RESPONSE_SEGMENT_DOWNLOAD:
-                raise SdoCommunicationError(
-                    f"Unexpected response 0x{res_command:02X} "
-                    f"(expected 0x{RESPONSE_SEGMENT_DOWNLOAD:02X})")
+            try:
+                response = self.sdo_client.request_response(request)
+                res_command, = struct.unpack("B", response[0:1])
+                if res_command & 0xE0 != RESPONSE_SEGMENT_DOWNLOAD:
+                    raise SdoCommunicationError(
+                        f"Unexpected response 0x{res_command:02X} "
+                        f"(expected 0x{RESPONSE_SEGMENT_DOWNLOAD:02X})")
+            except SdoError:
+                # The transfer has failed, close() must not try to complete it
+                self._done = True
+                raise
         # Advance position
         self.pos += bytes_sent
         return bytes_sent
